@@ -5,6 +5,7 @@ from vlib.engine import Prop, Failure, SAN_FLAGS
 from translate import c15_abc_tables
 
 RB_WITNESS = "<ABCDEFGHIJKLMNOPQRSTUVWXYZ>:<A>aabcdefghijklmnopqrstuvwxyz"
+RF_TEXT_KEY = "C15:esl_msa_ReasonableRF:text-useconsseq-null-abc"
 
 
 def hx(b):
@@ -45,6 +46,8 @@ def wuss_pairs(ss):
     return pairs
 
 ABC = {"rna": (4, 18, "ACGU-RYMKSWHBVDN*~"), "dna": (4, 18, "ACGT-RYMKSWHBVDN*~"), "amino": (20, 29, "ACDEFGHIKLMNPQRSTVWY-BJZOUX*~")}
+
+DEGEN = {}
 
 def is_residue_code(abc, x):
     K, Kp, _ = ABC[abc]
@@ -118,6 +121,10 @@ def expand_mask(kv, need):
 def filt(mask, s):
     return None if s is None else bytes(c for c, m in zip(s, mask) if m)
 
+
+def f32x(x):
+    try: return struct.unpack("<f", struct.pack("<f", x))[0]
+    except OverflowError: return float("inf") if x > 0 else float("-inf")
 
 def f32(x): return struct.unpack("<f", struct.pack("<f", x))[0]
 def bits2d(h): return struct.unpack("<d", struct.pack("<Q", int(h, 16)))[0]
@@ -208,7 +215,8 @@ class C15(Prop):
         "ct2wuss_ok_iff", "ct2wuss_ok_of_few_pk", "ct2wuss_fails_needs_27", "wuss_few_pk_roundtrip",
         "markFragments_spec", "reverseComplement_spec", "reverseComplement_rejects", "addComment_addGF_spec",
         "simple_pk_roundtrip", "ct2simplewuss_total", "ct2simplewuss_ok_of_few_pk", "wuss_ct_simplewuss_ct_total",
-        "wuss2ct_iff_class_labelling", "wussReverse_pairs", "reverseComplement_ss_pairs")]
+        "wuss2ct_iff_class_labelling", "wussReverse_pairs", "reverseComplement_ss_pairs",
+        "columnSubset_ok_of_few_pk", "reasonableRF_cons_shape_partial", "wussNopseudo_pairs", "wussFull_total")]
     claimed = True
     technique = ("Lean 4 proof about an executable hand model of esl_msa.c / esl_wuss.c (in-place compaction loop = filter-by-mask on every aligned field, well-formedness invariants, "
                  "tag-table rebuild of SequenceSubset, mode-conversion and reverse-complement identities over alphabet tables regenerated from the tree, 27-stack WUSS reader = 27 Dyck recognisers, "
@@ -234,13 +242,13 @@ class C15(Prop):
                   "too (simple_pk_roundtrip); hence wuss->ct->wuss->ct and RemoveBrokenBasepairsFromSS are identity-or-documented-failure on EVERY balanced string (wuss_ct_wuss_ct_total, "
                   "removeBroken_total). compaction_pairs_exact + compaction_entry_points: after the repair + compaction of ColumnSubset / MinimGaps / NoGaps (digital DNA/RNA) / MinimGapsText / NoGapsText "
                   "(fix_bps) SS_cons and EVERY per-sequence SS spell exactly the pairs with both columns retained, renumbered by the column map, rows are the filtered original rows, alignment well formed. "
-                  "sequenceSubset_markup_exact: every slot of the subset's GS/GR tables is the slot of the retained sequence of that rank (sparse tags: none stays none). wuss2ct_iff_class_labelling: esl_wuss2ct returns ct IFF ct is a symmetric table and the string a class-nested labelling of it (complete characterisation of the reader); wussReverse_pairs: esl_wuss_reverse mirrors the pair set of every balanced string, hence reverseComplement_ss_pairs for SS_cons and every per-sequence SS. New specs: markFragments_spec "
+                  "sequenceSubset_markup_exact: every slot of the subset's GS/GR tables is the slot of the retained sequence of that rank (sparse tags: none stays none). wuss2ct_iff_class_labelling: esl_wuss2ct returns ct IFF ct is a symmetric table and the string a class-nested labelling of it (complete characterisation of the reader); wussReverse_pairs: esl_wuss_reverse mirrors the pair set of every balanced string, hence reverseComplement_ss_pairs for SS_cons and every per-sequence SS; wussNopseudo_pairs (exactly the letter pairs removed) and wussFull_total (esl_wuss_full keeps the pair table of EVERY balanced string, letters included); columnSubset_ok_of_few_pk (repair + compaction cannot fail when every SS line has <= 26 pseudoknotted pairs); esl_msa_ReasonableRF with useconsseq=TRUE modelled (esl_abc_FCount into binary32 counts over degeneracy tables regenerated from the tree, esl_vec_FArgMax) and compared exactly. New specs: markFragments_spec "
                   "(span rule of esl_msa_MarkFragments), reverseComplement_spec (field by field, well-formedness kept), addComment_addGF_spec. "
                   "Round 3: columnSubset_msa_sscons_pairs; esl_msa_Compare / CompareMandatory / CompareOptional = eslOK iff the documented fields agree; esl_msa_Hash / CheckUniqueNames; "
                   "esl_msa_Checksum = Jenkins hash of the concatenated rows; ConvertDegen2X / SymConvert / SetDefaultWeights; ReasonableRF (useconsseq=FALSE) shape; esl_sq_Digitize/Textize/"
                   "ReverseComplement/ConvertDegen2X. Round 2: pk_roundtrip (invariant over the rb[]/auxpk lettering loop). "
                   "Remaining: the exact predicate of ct2wuss_ok_iff is the lettering run itself (no closed form: a letter is re-used only past its right bound and letters grow within a batch); "
-                  "ReasonableRF with useconsseq=TRUE not modelled (in text mode it dereferences msa->abc == NULL: caller contract, "
+                  "ReasonableRF: only the shape of the line is a theorem (thresholds / counts are floating point, L0; useconsseq=TRUE in text mode dereferences msa->abc == NULL: caller contract, "
                   "no caller in easel). Trusted: Lean kernel + propext/Classical.choice/Quot.sound; fidelity of the hand model is checked, not proved, by the differential run; FlushLeftInserts is "
                   "modelled as an append-only output (b <= a in the C loop); float thresholds of MarkFragments are evaluated by the driver (L0).")
     diverge_is_violation = True
@@ -253,7 +261,7 @@ class C15(Prop):
                    "MarkFragments thresholds evaluated in binary32/binary64 by the driver (L0); esl_msa_Copy modelled through Create+Copy only",
                    "esl_msa_Compare model: an optional per-sequence array is non-NULL iff one of its entries is (checked by the harness on every compared alignment, 'repinv='); "
                    "esl_DCompare_old / esl_FCompare_old are parameters of the model and the theorems, evaluated in binary64/binary32 by the driver (L0)",
-                   "esl_msa_ReasonableRF: only useconsseq=FALSE is modelled (weight arithmetic a parameter, binary64 in the driver); useconsseq=TRUE needs a digital alignment (text mode: msa->abc is NULL)",
+                   "esl_msa_ReasonableRF: both modes are modelled in digital mode, useconsseq=FALSE also in text mode (weight arithmetic a parameter: binary64 weights, binary32 counts in the driver, L0); useconsseq=TRUE on a TEXT alignment dereferences msa->abc == NULL in the C code (caller contract, never called that way inside easel): not exercised",
                    "esl_sq.c: FetchFromMSA, Digitize, Textize, ReverseComplement, ConvertDegen2X are modelled on the observable content of the sequence object (name/acc/desc/source, residues, ss, extra "
                    "markup, start/end, mode)",
                    "not modelled: esl_msa_Sample, esl_msa_GuessAlphabet, esl_msa_Format* (printf wrappers over the modelled Set*), esl_msa_Expand/Sizeof, esl_sq_Copy/Compare/Grow/Block*/CountResidues/Checksum"]
@@ -266,9 +274,10 @@ class C15(Prop):
         txt = c15_abc_tables.dump(ctx.src, ctx.work, SAN_FLAGS)
         # the monitors' own view of the alphabets (K, Kp, symbols) is regenerated from the same dump of the working tree
         lines = txt.strip().split("\n")
-        for k in range(0, len(lines), 4):
+        for k in range(0, len(lines), 6):
             _, nm, _ty, K, Kp = lines[k].split()
             ABC[nm] = (int(K), int(Kp), "".join(chr(int(x)) for x in lines[k + 1].split()[1:]))
+            DEGEN[nm] = ([[c == "1" for c in row] for row in lines[k + 4].split()[1:]], [int(x) for x in lines[k + 5].split()[1:]])
         return {"EaselModel/Msa/AbcTables.lean": c15_abc_tables.to_lean(txt)}
 
     def canonical(self, line):
@@ -520,7 +529,8 @@ class C15(Prop):
                 if rng.random() < 0.1: olds = olds + olds[0]          # a repeated old symbol: strchr finds the first
                 ops += ["symconvert old=%s new=%s" % (hx(olds), hx(news)), "dump", "compare", "checksum"]
             if rng.random() < 0.25:
-                ops += ["dump", "reasonablerf symfrac=" + dbits(rng.choice([0.5, 0.0, 1.0, 0.3, 0.75, rng.random(), 1.5, -1.0]))]
+                ops += ["dump", "reasonablerf symfrac=" + dbits(rng.choice([0.5, 0.0, 1.0, 0.3, 0.75, rng.random(), 1.5, -1.0]))
+                        + (" cons=1" if digital and rng.random() < 0.6 else "")]
         return {"name": "cmp%d" % idx, "ops": ops, "sticky": sticky}
 
     def sq_case(self, rng, idx):
@@ -606,6 +616,10 @@ class C15(Prop):
             # regression (fixed by c71354f): esl_sq_ReverseComplement once freed xr[] but kept nxr > 0 (NULL deref in esl_sq_Destroy)
             {"name": "sq-revcomp-xr-witness", "ops": ["new nseq=1 alen=4", "sq i=0 seq=" + hx("AC-U"), "gr tag=" + hx("CSA") + " i=0 v=" + hx("12.4"), "dump", "fetch i=0 keep=1", "sqrevcomp", "sqdump"],
              "sticky": 3},
+            # KNOWN FINDING (patch proposed: /var/tmp/fixes-proposed/C15-reasonablerf-text-consseq.patch): esl_msa_ReasonableRF(text alignment,
+            # symfrac, useconsseq=TRUE, rf) dereferences msa->abc == NULL in its first statement; the generator never asks for it
+            {"name": "reasonablerf-text-consseq-witness", "ops": ["new nseq=2 alen=4", "sq i=0 seq=" + hx("ACGU"), "sq i=1 seq=" + hx("AC-U"), "dump",
+                                                                 "reasonablerf symfrac=" + dbits(0.5) + " cons=1"], "sticky": 3, "known_key": RF_TEXT_KEY},
             {"name": "sq-basics", "ops": ["new nseq=1 alen=6", "sq i=0 seq=" + hx("AC-UnX") + " ss=" + hx("<.>..."), "dump", "fetch i=0 keep=1", "sqdump", "sqrevcomp", "sqdump", "sqrevcomp", "sqdump",
                                           "sqdigitize abc=rna", "sqdump", "sqdegen2x", "sqdump", "sqrevcomp", "sqdump", "sqtextize", "sqdump", "sqdigitize abc=amino", "sqdump", "sqrevcomp", "sqdump"], "sticky": 2},
             {"name": "compare-basics", "ops": ["new nseq=2 alen=3", "sq i=0 seq=" + hx("ACG") + " wgt=" + dbits(1.0), "sq i=1 seq=" + hx("A-G") + " wgt=" + dbits(2.0), "col name=" + hx("x") + " haswgts=1",
@@ -707,7 +721,7 @@ class C15(Prop):
                 if f: return f
             elif name == "reasonablerf":
                 if A is None or not freshA or not A.ok: continue
-                f = self.check_rf(A, kv["symfrac"], l)
+                f = self.check_rf(A, kv["symfrac"], l, kv.get("cons") == "1")
                 if f: return f
             elif name in ("colsubset", "minimgaps", "minimgapstext", "nogaps", "nogapstext", "seqsubset", "clone", "copy", "digitize",
                           "textize", "revcomp", "flushleft", "markfrag", "markfragold", "rbb", "degen2x", "symconvert", "defwgts"):
@@ -789,6 +803,13 @@ class C15(Prop):
             if l.startswith("ok ss="):
                 r = unhx(l[6:])
                 if wuss_pairs(r) != wuss_pairs(ss): return Failure("monitor", "esl_wuss_full changes the pairs of %r" % ss)
+            elif wuss_pairs(ss) is not None:      # theorem wussFull_total: it cannot fail on a balanced string
+                return Failure("monitor", "esl_wuss_full fails (%s) on the balanced WUSS string %r" % (l[:40], ss))
+        elif name == "nopseudo":
+            if l.startswith("ok ss=") and wuss_pairs(ss) is not None:      # theorem wussNopseudo_pairs
+                r = unhx(l[6:]) or b""; s_ = ss.decode("latin-1") if isinstance(ss, bytes) else ss
+                want = set((i, j) for i, j in wuss_pairs(ss) if not s_[i].isalpha())
+                if wuss_pairs(r) != want: return Failure("monitor", "esl_wuss_nopseudo does not remove exactly the pseudoknot-letter pairs of %r" % ss)
         return None
 
     def check_markfrag(self, d, tbits, bits):
@@ -867,18 +888,28 @@ class C15(Prop):
         st["rc_prev"] = None
         return None
 
-    def check_rf(self, d, sbits, l):
+    def check_rf(self, d, sbits, l, use_cons=False):
         """esl_msa_ReasonableRF(msa, symfrac, FALSE): 'x' where the weighted fraction of residues (gaps in the denominator, missing
         data ignored) reaches symfrac and at least one residue is present, '.' elsewhere"""
+        if use_cons and not d.digital: return None if l == "bad-op" else Failure("monitor", "ReasonableRF(useconsseq) on a text alignment: " + l[:40])
         if not l.startswith("ok ss="): return Failure("monitor", "esl_msa_ReasonableRF failed: " + l[:60])
         symfrac = bits2d(sbits); got = unhx(l[6:]) or b""
         want = bytearray()
         for c in range(d.alen):
             r = tot = 0.0
+            cnt = [0.0] * (ABC[d.abc][0] if d.digital else 0)       # binary32 counts of esl_abc_FCount
             for i in range(d.nseq):
                 x = d.sq[i]["row"][c]; w = bits2d(d.sq[i]["wgt"])
                 if d.digital:
                     K, Kp, _ = ABC[d.abc]
+                    if use_cons and is_residue_code(d.abc, x):
+                        try: wt = f32(w)
+                        except OverflowError: wt = float("inf") if w > 0 else float("-inf")
+                        if x < K: cnt[x] = f32x(cnt[x] + wt)
+                        else:
+                            deg, ndeg = DEGEN[d.abc]
+                            for y in range(K):
+                                if deg[x][y]: cnt[y] = f32x(cnt[y] + f32x(wt / float(ndeg[x])))
                     if is_residue_code(d.abc, x): r += w; tot += w
                     elif x == K: tot += w
                 else:
@@ -886,7 +917,12 @@ class C15(Prop):
                     else: tot += w
             try: cons = r > 0.0 and r / tot >= symfrac
             except ZeroDivisionError: cons = r > 0.0 and (float("inf") if r > 0 else float("nan")) >= symfrac
-            want.append(0x78 if cons else 0x2e)
+            if cons and use_cons:
+                best = 0
+                for k in range(1, len(cnt)):
+                    if cnt[k] > cnt[best]: best = k
+                want.append(ord(ABC[d.abc][2][best]))
+            else: want.append(0x78 if cons else 0x2e)
         if bytes(want) != got: return Failure("monitor", "esl_msa_ReasonableRF(symfrac=%r): %r, the weighted-occupancy rule gives %r" % (symfrac, got, bytes(want)))
         return None
 
